@@ -353,6 +353,17 @@ def gen_aarch64(rng):
     toks = ["os=l", "ps=%x" % page_bits]
     names = []
     how_po = rng.choice(["stext", "ver", "both"])
+    # a kernel whose version code does not tell the layout (distribution kernels with the 52-bit VA
+    # backport report 4.18 with the flipped layout), and no _stext: the library looks for the linear
+    # mapping in the other half of the kernel range, where the image, modules and vmalloc live
+    inconsistent = rng.random() < 0.3
+    if inconsistent:
+        how_po = "ver"
+        version = rng.choice([ver(4, 18, 0), ver(5, 3, 0)]) if newlayout else rng.choice([ver(5, 4, 0), ver(5, 10, 0)])
+        if not extras:
+            v = other_lo + (1 << (va_bits - 3)) + (rng.randint(0, 4000) << page_bits)
+            if pt.map(v, 1, phys_offset + (rng.randint(1, max(1, (memsz >> page_bits) - 1)) << page_bits)):
+                extras.append(v)
     toks.append("ver=%x" % version if how_po in ("ver", "both") else "ver=-")
     if how_po in ("stext", "both"):
         names.append("S:_stext=%x" % stext)
@@ -384,8 +395,9 @@ def gen_aarch64(rng):
           root_pa, 0]
     for _ in range(4):
         ps.append(phys_offset + rng.randint(0, memsz - 1))
-    tag = "os/aarch64/%d-%d/%s/po=%s/vb=%s/root=%s/caps=%x" % (page_bits, va_bits, "new" if newlayout else "old",
-                                                        how_po, vbmode, rootmode, caps)
+    tag = "os/aarch64/%d-%d/%s%s/po=%s/vb=%s/root=%s/caps=%x" % (page_bits, va_bits, "new" if newlayout else "old",
+                                                          "-verlies" if inconsistent else "",
+                                                          how_po, vbmode, rootmode, caps)
     return finish("aarch64", toks, names, caps, rng.choice([1, 2]), pt, 1, qs, ps, mem, tag, fmtname=fmtname)
 
 
@@ -563,6 +575,7 @@ def gen_ppc64(rng):
 # ---------------------------------------------------------------------------
 
 XEN_TEXT = {"4.4": 0xffff82d080000000, "4.3": 0xffff82c4c0000000, "4.0": 0xffff82c480000000, "3.2": 0xffff828c80000000}
+XEN_TEXT_ALL = dict(XEN_TEXT, **{"4.0dev": 0xffff828880000000})
 XEN_VER = {"4.4": (4 << 16) | 4, "4.3": (4 << 16) | 3, "4.0": (4 << 16) | 0, "3.2": (3 << 16) | 2}
 
 
@@ -580,6 +593,21 @@ def gen_xen_x86_64(rng):
     pt.free = xen_pa + 0x400000
     pt.map_linear(D, 0, memsz, rng.choice([[3], [3, 2], [2]]) if memsz <= (4 << 30) else [3])
     pt.map_linear(text, xen_pa, 0x600000, [2])
+    # something else, mapped with physically scattered 2M pages, where an OLDER Xen had its text
+    # (e.g. the read-only compat M2P table of 4.3 sits in the text slot of 4.0-4.2); the library
+    # probes the candidate text addresses newest first, so this must not be taken for the text
+    order = ["4.4", "4.3", "4.0", "3.2", "4.0dev"]
+    older = [XEN_TEXT_ALL[k] for k in order[order.index(which) + 1:]]
+    other = None
+    if older and rng.random() < 0.6:
+        other = rng.choice(older)
+        nchunk = rng.randint(2, 6)
+        pas = [((memsz >> 1) + 0x200000 * (3 * j + 1)) & ~0x1fffff for j in range(nchunk)]
+        rng.shuffle(pas)
+        if pas == sorted(pas):
+            pas.reverse()
+        for j, pa in enumerate(pas):
+            pt.map(other + 0x200000 * j, 2, pa)
     toks = ["os=x"]
     have_ver = rng.random() < 0.5
     toks.append("ver=%x" % XEN_VER[which] if have_ver else "ver=-")
@@ -604,8 +632,14 @@ def gen_xen_x86_64(rng):
     for _ in range(6):
         qs.append(D + rng.randint(0, memsz - 1))
         qs.append(text + rng.randint(0, 0x5fffff))
+    if other is not None:
+        qs += [other, other - 1, other + 0x200000 * nchunk - 1, other + 0x200000 * nchunk, other + 0x3fffffff]
+        for j in range(nchunk):
+            qs += [other + 0x200000 * j, other + 0x200000 * j + rng.randint(0, 0x1fffff)]
     ps = [0, memsz - 1, memsz, xen_pa, root_pa, (1 << 40) - 1, 1 << 40, (5 << 40) - 1, 5 << 40]
-    tag = "os/xen-x86_64/%s%s/ver=%s/root=%s/caps=%x" % (which, "-bigmem" if bigmem else "", have_ver, rootmode, caps)
+    tag = "os/xen-x86_64/%s%s%s/ver=%s/root=%s/caps=%x" % (which, "-bigmem" if bigmem else "",
+                                                     "" if other is None else "+slot%x" % (other >> 28 & 0xfff),
+                                                     have_ver, rootmode, caps)
     return finish("x86_64", toks, names, caps, 1, pt, 1, qs, ps, mem, tag)
 
 
